@@ -188,6 +188,37 @@ def run(tier, replay=None):
                     ck.violation("%s mode: the output of a statement that fails and the report of its failure come out as %s, expected %s: %r" % (mode, seq, want, sc[:120]),
                                  {"script": sc, "mode": mode, "stdout": out[:2000]})
         ck.part("order of output and failure reports", scripts=len(orders), runs=len(ojobs))
+    # ---- several statements in one text, some of them failing at run time: every mode runs all of them, in order (what each writes and
+    # whether it fails comes from CalcSem; the text of the reports carries addresses and is not compared)
+    if not replay:
+        fails = [assign("xa", bin_("/", I(1), I(0))), assign("xi", ix1(lst([I(1)]), I(3))), assign("xs", bin_("+", St("s"), I(1))), call("nope", I(1)), assign("xb", bin_("/", N("a"), bin_("-", N("a"), N("a"))))]
+        ms = []
+        for k, f in enumerate(fails):
+            g = fails[(k + 2) % len(fails)]
+            for items in ([wr(St("one ")), f, wr(St("two "))], [assign("a", I(2)), f, wr(bin_("+", call("toa", N("a")), St("two "))), g, wr(St("three "))], [f, g, wr(St("one "))], [wr(St("one ")), wr(St("two ")), f]):
+                ms.append({"id": len(ms) + 1, "items": items, "stdin": []})
+        so = sess.spec_obs(ms)
+        mjobs = []
+        for s in ms:
+            want = []
+            for o in so.get(s["id"], []):
+                want += _re.findall(r"one|two|three", "".join(o.get("out", []))) + (["RUNTIME ERROR"] if "err" in o else [])
+            if len(so.get(s["id"], [])) != len(s["items"]) or any("unspec" in o for o in so[s["id"]]):
+                raise vlib.Infra("CalcSem does not specify a several-statements session")
+            text = " ".join(ps(it) for it in s["items"])
+            mjobs += [(text, want, "eval", text), (text, want, "file", text + "\n"), (text, want, "repl", text + "\n")]
+        with concurrent.futures.ThreadPoolExecutor(max_workers=vlib.NCPU) as ex:
+            futs = {ex.submit(run_calc, calc, mode, inp, tmpdir, 400000 + k): (text, want, mode) for k, (text, want, mode, inp) in enumerate(mjobs)}
+            for f in concurrent.futures.as_completed(futs):
+                text, want, mode = futs[f]
+                rc, out, err = f.result()
+                ck.cov["evaluations"] += 1
+                ck.cov["traces_validated_against_impl"] += 1
+                seq = _re.findall(r"one|two|three|RUNTIME ERROR", out)
+                if rc != 0 or seq != want:
+                    ck.violation("%s mode: several statements in one text, some failing: %r gives %s, specified %s%s" % (mode, text[:150], seq, want, (" exit %d" % rc) if rc else ""),
+                                 {"statement": text, "mode": mode, "stdout": out[:2000]})
+        ck.part("several statements in one text, some failing, in three modes", texts=len(ms), runs=len(mjobs))
     ck.cov["rule"] = ("all scripts of <= %d statements over 24 statement shapes (incl. a multi-line string inside an open block and inside an open array literal) (plain, value, strings and comments containing { } [ ] \" ;, escaped quote, multi-line block / block with a brace in a string / "
                       "array literal / string, blank and comment lines), each in file mode with and without a final line break and in REPL mode; plus single statements whose values CalcSem specifies, in "
                       "-eval, REPL and file mode; non-trivial = a multi-line statement or a string/comment containing a grouping character" % n)
